@@ -176,6 +176,10 @@ class Driver:
         shutil.rmtree(self.base, ignore_errors=True)
 
     def run_case(self, case):
+        if 'script' in case:
+            from .seqdrv import Script
+            self.ncase += 1
+            return Script(self, case).run()
         import importlib
         import pwv_inject
         from pwv import targets
@@ -213,15 +217,32 @@ class Driver:
             kw['results_pipe'] = pipe
         if 'init_state' in case:
             kw['init_state'] = case['init_state']
+        fd = case.get('frontend_delay')
+        undo = []
+        if fd:
+            import pyworkers.remote as _r
+            import pyworkers.persistent_remote as _pr
+            real_recv = _r.recv_msg
+
+            def slow_recv(sock, *a, comment=None, **k):
+                if comment and comment.startswith(fd['comment_prefix']):
+                    time.sleep(fd['seconds'])
+                return real_recv(sock, *a, comment=comment, **k)
+            for m_ in (_r, _pr):
+                undo.append((m_, m_.recv_msg))
+                m_.recv_msg = slow_recv
+        obs_undo = undo
         t_ctor = time.time()
         try:
             if persistent:
-                w = cls(target, kwargs={'marker': marker}, **kw)
+                w = cls(target, kwargs=dict(case.get('targs', {}), marker=marker), **kw)
             else:
                 targs = case.get('targs', {})
                 w = cls(target, kwargs=dict(targs, marker=marker), **kw)
         except BaseException as e:  # noqa
             obs['ctor'] = 'RAISES:%s' % type(e).__name__
+            for m_, f_ in obs_undo:
+                m_.recv_msg = f_
             pwv_inject.configure(None) if kind in ('T', 'PT') else None
             return obs
         obs['ctor'] = 'ok'
@@ -230,6 +251,8 @@ class Driver:
         try:
             self._drive(case, kind, w, persistent, pipe, rd, obs, marker)
         finally:
+            for m_, f_ in obs_undo:
+                m_.recv_msg = f_
             if kind in ('T', 'PT'):
                 st = pwv_inject.state()
                 if st:
@@ -310,7 +333,7 @@ class Driver:
         if persistent:
             for x in case.get('inputs', []):
                 try:
-                    w.enqueue(x)
+                    w.enqueue(*x) if isinstance(x, (list, tuple)) else w.enqueue(x)
                 except BaseException as e:  # noqa
                     obs.setdefault('enqueue_errors', []).append(type(e).__name__)
             if case.get('close', True):
@@ -358,6 +381,13 @@ class Driver:
             d = with_timeout(lambda: w.wait(T), T + 5)
         elif how == 'terminate':
             d = with_timeout(lambda: w.terminate(timeout=T, force=False), T * 2 + 5)
+        elif how == 'poll-wait':
+            d = False
+            while time.time() - t0 < T:
+                a = _guard(lambda: w.wait(0.3))
+                if a is True or isinstance(a, str):
+                    d = a
+                    break
         else:
             d = False
             while time.time() - t0 < T:
